@@ -209,7 +209,9 @@ def _cell_option_tokens(c, skip=()):
                       itok(-c['u'] if c.get('u_neg') else c['u'])))
     if c.get('lat') and 'lat' not in skip:
         toks.append(T(kw('lat'), raw('='), itok(c['lat'])))
-    if c.get('fill') is not None and 'fill' not in skip:
+    if c.get('fill') is not None and 'fill' not in skip and \
+            not c['fill'].get('implicit'):
+        # (implicit: a lattice cell without FILL is made of its own material)
         toks += fill_tokens(c['fill'])
     if c.get('trcl') is not None and 'trcl' not in skip:
         ref = c['trcl']
